@@ -16,6 +16,7 @@ import (
 
 	"github.com/AstromechZA/etcpwdparse"
 	"github.com/sirupsen/logrus"
+	"pgregory.net/rapid"
 
 	"hop.computer/hop/authgrants"
 	"hop.computer/hop/authkeys"
@@ -26,9 +27,86 @@ import (
 	"hop.computer/hop/transport"
 )
 
-// verifAuthzUsers: alice and bob have a passwd entry (home /home/<name>); ghost
-// has none, so thunks.LookupUser fails for it (as for any unknown account).
-var verifAuthzUsers = []string{"alice", "bob", "ghost"}
+// verifAuthzUsers: every name except ghost has a passwd entry and a home directory
+// of its own (verifAuthzHome); ghost has none, so thunks.LookupUser fails for it (as
+// for any unknown account). The names after ghost are NEAR-COLLISIONS of alice / bob /
+// sam: they differ only by case, by a trailing blank, by a NUL suffix or by a letter
+// that Unicode case folding / upper-casing / compatibility normalisation maps onto an
+// ASCII one (U+017F LATIN SMALL LETTER LONG S). Account names are opaque strings (the
+// passwd lookup, the grant map and the session compare them byte for byte), so every one
+// of them is a DIFFERENT account: what is listed or granted for one says nothing about
+// another. New names are appended only (stored replays index this slice).
+var verifAuthzUsers = []string{"alice", "bob", "ghost", "Alice", "ALICE", "alice ", "alice\x00", "Bob", "sam", "\u017fam"}
+
+// verifAuthzFamilies groups the indices of names that are near-collisions of each other.
+var verifAuthzFamilies = [][]int{{0, 3, 4, 5, 6}, {1, 7}, {8, 9}}
+
+// verifAuthzNear reports whether a and b are different names of one family.
+func verifAuthzNear(a, b string) bool {
+	if a == b {
+		return false
+	}
+	for _, f := range verifAuthzFamilies {
+		ina, inb := false, false
+		for _, i := range f {
+			ina = ina || verifAuthzUsers[i] == a
+			inb = inb || verifAuthzUsers[i] == b
+		}
+		if ina && inb {
+			return true
+		}
+	}
+	return false
+}
+
+// verifAuthzGenCast draws the users of one history (indices into verifAuthzUsers): a third
+// of the histories play with the classic cast alice, bob, ghost; the others with two
+// near-collisions of one family (so that what is stored for one is often asked for as the
+// other), one more name and the ghost or a third member of the family. Histories pick
+// cast[i] with a bias towards the first entries.
+func verifAuthzGenCast(t *rapid.T) []int {
+	if rapid.IntRange(0, 2).Draw(t, "classic-cast") == 0 {
+		return []int{0, 1, verifAuthzGhost}
+	}
+	fam := rapid.SampledFrom(verifAuthzFamilies).Draw(t, "family")
+	perm := rapid.Permutation(fam).Draw(t, "members")
+	cast := []int{perm[0], perm[1], rapid.IntRange(0, len(verifAuthzUsers)-1).Draw(t, "third")}
+	if len(perm) > 2 && rapid.IntRange(0, 1).Draw(t, "fourth-near") == 0 {
+		cast = append(cast, perm[2])
+	} else {
+		cast = append(cast, verifAuthzGhost)
+	}
+	return cast
+}
+
+// verifAuthzGhost is the index of the name without an account.
+const verifAuthzGhost = 2
+
+// verifAuthzUserIndex returns the index of name in verifAuthzUsers, -1 if it is not one of them.
+func verifAuthzUserIndex(name string) int {
+	for i, u := range verifAuthzUsers {
+		if u == name {
+			return i
+		}
+	}
+	return -1
+}
+
+// verifAuthzHome is the home directory of an account: /home/<name> for names made of
+// ASCII letters, /home/acct<index> otherwise (a passwd line cannot carry a trailing blank
+// in its home field). Distinct accounts have distinct home directories.
+func verifAuthzHome(user string) string {
+	plain := user != ""
+	for i := 0; i < len(user); i++ {
+		if c := user[i]; !(c >= 'a' && c <= 'z' || c >= 'A' && c <= 'Z') {
+			plain = false
+		}
+	}
+	if plain {
+		return "/home/" + user
+	}
+	return fmt.Sprintf("/home/acct%d", verifAuthzUserIndex(user))
+}
 
 const verifAuthzNKeys = 4
 
@@ -37,6 +115,9 @@ var verifAuthzT0 = time.Date(2031, 5, 4, 12, 0, 0, 0, time.UTC)
 
 // verifAuthzAt converts a case-relative second offset to a time.
 func verifAuthzAt(sec int) time.Time { return verifAuthzT0.Add(time.Duration(sec) * time.Second) }
+
+// verifAuthzAtMs converts a case-relative offset in milliseconds to a time.
+func verifAuthzAtMs(ms int64) time.Time { return verifAuthzT0.Add(time.Duration(ms) * time.Millisecond) }
 
 // verifAuthzKeyPair returns the i-th fixed client key pair (K1..K4 = index 0..3):
 // a real X25519 pair derived from a constant private scalar.
@@ -68,7 +149,9 @@ func verifAuthzLeaf(i int) certs.Certificate {
 
 // verifAuthzKeysPath is the fs.FS path (no leading slash, as AuthorizeKey opens
 // it) of a user's authorized_keys file.
-func verifAuthzKeysPath(user string) string { return "home/" + user + "/.hop/authorized_keys" }
+func verifAuthzKeysPath(user string) string {
+	return verifAuthzHome(user)[1:] + "/.hop/authorized_keys"
+}
 
 // verifAuthzInstallThunks replaces the passwd lookup and the clock by case-driven
 // stubs and silences logrus. The returned function restores the previous thunks.
@@ -76,14 +159,12 @@ func verifAuthzInstallThunks(now func() time.Time) (restore func()) {
 	logrus.SetOutput(io.Discard)
 	oldLookup, oldNow, oldStart := thunks.LookupUser, thunks.TimeNow, thunks.StartCmd
 	thunks.LookupUser = func(username string) (*etcpwdparse.EtcPasswdEntry, error) {
-		if username != "alice" && username != "bob" {
+		idx := verifAuthzUserIndex(username) // exact string: the passwd database is case sensitive
+		if idx < 0 || idx == verifAuthzGhost {
 			return nil, thunks.ErrUserNotFound
 		}
-		uid := 1001
-		if username == "bob" {
-			uid = 1002
-		}
-		ent, err := etcpwdparse.ParsePasswdLine(fmt.Sprintf("%s:x:%d:%d:Test User:/home/%s:/bin/sh", username, uid, uid, username))
+		uid := 1001 + idx
+		ent, err := etcpwdparse.ParsePasswdLine(fmt.Sprintf("%s:x:%d:%d:Test User:%s:/bin/sh", username, uid, uid, verifAuthzHome(username)))
 		return &ent, err
 	}
 	thunks.TimeNow = now
